@@ -83,7 +83,7 @@ def run_shard(spec, rec):
             emis.check_switched_off(result, state['cfg'])
         return True          # record and return True (the verdict is taken by the harness)
 
-    wrapped = icontract.ensure(balanced, error=Unbalanced)(EM.compute_emissions)
+    wrapped = icontract.ensure(balanced, error=Unbalanced, enabled=True)(EM.compute_emissions)
     E.compute_emissions = wrapped
     try:
         sink = io.StringIO()
